@@ -9,7 +9,7 @@ open VgiVerif.Gen.C04 (Shape)
 def repaired : Shape :=
   { drainVersion := true, drainParams := true, drainInit := true, drainUnknown := false, initChecks := true,
     cliDrainOverErr := true, cliDrainSurvivesCb := true, unaryDrainOnCb := true, hdrDrainOnCb := true,
-    hdrAbortCloses := true, emptyRequestReplies := true, initErrorFlushesLogs := true, failFlushesLogs := true }
+    hdrAbortCloses := true, emptyRequestReplies := true, initErrorFlushesLogs := true, failFlushesLogs := true, unaryDrainBeforeDecode := true }
 
 namespace Aux
 
@@ -26,6 +26,7 @@ namespace Aux
 @[simp] theorem rep_emptyRequestReplies : repaired.emptyRequestReplies = true := rfl
 @[simp] theorem rep_initErrorFlushesLogs : repaired.initErrorFlushesLogs = true := rfl
 @[simp] theorem rep_failFlushesLogs : repaired.failFlushesLogs = true := rfl
+@[simp] theorem rep_unaryDrainBeforeDecode : repaired.unaryDrainBeforeDecode = true := rfl
 
 def its (xs : List SItem) : List SFr := xs.map .it
 
@@ -153,9 +154,9 @@ theorem cliFold_unaryDrain (pol : Nat → Bool) (so : Option Sess) (xs : List SI
   | cons x xs ih => intro r res n; simp [cliFold, cliOn, ih]
 
 /-- `_read_unary_response` consumes the whole response stream whatever it contains and whatever the callback does -/
-theorem cliFold_unaryRead (pol : Nat → Bool) (so : Option Sess) (xs : List SItem) :
+theorem cliFold_unaryRead (pol : Nat → Bool) (so : Option Sess) (d : Bool) (xs : List SItem) :
     ∀ (res : Res) (n : Nat),
-    ∃ r' n', cliFold repaired pol ⟨so, some .unaryRead, res, n⟩ (its xs ++ [.eos]) = (⟨so, none, r', n'⟩, [], []) := by
+    ∃ r' n', cliFold repaired pol ⟨so, some (.unaryRead d), res, n⟩ (its xs ++ [.eos]) = (⟨so, none, r', n'⟩, [], []) := by
   induction xs with
   | nil => intro res n; exact ⟨.raised, n, by simp [cliFold, cliOn, Cli.fin]⟩
   | cons x xs ih =>
@@ -167,12 +168,14 @@ theorem cliFold_unaryRead (pol : Nat → Bool) (so : Option Sess) (xs : List SIt
       | false =>
         obtain ⟨r', n', h⟩ := ih res (n + 1)
         exact ⟨r', n', by simp [cliFold, cliOn, hp, h]⟩
-    | data => exact ⟨.value, n, by simp [cliFold, cliOn, Cli.wait, cliFold_unaryDrain]⟩
+    | data => cases d
+              · exact ⟨.raised, n, by simp [cliFold, cliOn, Cli.wait, cliFold_unaryDrain]⟩
+              · exact ⟨.value, n, by simp [cliFold, cliOn, Cli.wait, cliFold_unaryDrain]⟩
     | err => exact ⟨.error, n, by simp [cliFold, cliOn, Cli.wait, cliFold_unaryDrain]⟩
 
-theorem cliFold_unary (pol : Nat → Bool) (so : Option Sess) (xs : List SItem) (res : Res) (n : Nat) :
-    ∃ r' n', cliFold repaired pol ⟨so, some .unaryOpen, res, n⟩ (.op :: (its xs ++ [.eos])) = (⟨so, none, r', n'⟩, [], []) := by
-  obtain ⟨r', n', h⟩ := cliFold_unaryRead pol so xs res n
+theorem cliFold_unary (pol : Nat → Bool) (so : Option Sess) (d : Bool) (xs : List SItem) (res : Res) (n : Nat) :
+    ∃ r' n', cliFold repaired pol ⟨so, some (.unaryOpen d), res, n⟩ (.op :: (its xs ++ [.eos])) = (⟨so, none, r', n'⟩, [], []) := by
+  obtain ⟨r', n', h⟩ := cliFold_unaryRead pol so d xs res n
   exact ⟨r', n', by simp [cliFold, cliOn, Cli.wait, h]⟩
 
 theorem cliFold_hdrDrain (pol : Nat → Bool) (so : Option Sess) (xs : List SItem) (ok : Bool) :
@@ -639,12 +642,12 @@ theorem unary_call (svc : Svc) (pol : Nat → Bool) (r : Request)
     (hag : ∀ m, svc.methods[r.method]? = some m → ∃ n b, m = .unary n b) :
     Done (execOp repaired svc pol (.call r) St.init) := by
   obtain ⟨xs, hd⟩ := dispatch_unary hag
-  obtain ⟨r', n', hc⟩ := cliFold_unary pol none xs .none 0
-  have hstart : cliStart (.call r) Cli.idle = (⟨none, some .unaryOpen, .none, 0⟩, reqFrames r) := by
+  obtain ⟨r', n', hc⟩ := cliFold_unary pol none r.resultDecodes xs .none 0
+  have hstart : cliStart (.call r) Cli.idle = (⟨none, some (.unaryOpen r.resultDecodes), .none, 0⟩, reqFrames r) := by
     simp [cliStart, Cli.idle]
   have hsrv : srvFold repaired svc .boundary ([] ++ reqFrames r) = (.boundary, [], .op :: (its xs ++ [.eos])) := by
     rw [List.nil_append, srvFold_req, hd]
-  have hcli : cliFold repaired pol ⟨none, some .unaryOpen, .none, 0⟩ ([] ++ .op :: (its xs ++ [.eos]))
+  have hcli : cliFold repaired pol ⟨none, some (.unaryOpen r.resultDecodes), .none, 0⟩ ([] ++ .op :: (its xs ++ [.eos]))
       = (⟨none, none, r', n'⟩, [], []) := by rw [List.nil_append]; exact hc
   show Done (execOp repaired svc pol (.call r) ⟨[], [], .boundary, Cli.idle, [], []⟩)
   rw [execOp_eq hstart, round_eq hsrv hcli, List.append_nil, round_quiet, round_quiet]
@@ -847,11 +850,11 @@ theorem C04_next_partial (svc : Svc) (hist : List Call) (c : Call) (hag : Spec.A
 
 /-- non-vacuity: a service and a history with faults that satisfy the hypotheses -/
 example : Spec.AllAgree ⟨[.unary 2 true, .stream false false 1 .raises []]⟩
-      [.stream (fun n => n == 0) ⟨1, true, true⟩ false [.tick, .cancel], .unary (fun _ => true) ⟨0, true, false⟩,
-       .unary (fun _ => false) ⟨7, true, true⟩] ∧
+      [.stream (fun n => n == 0) ⟨1, true, true, true⟩ false [.tick, .cancel], .unary (fun _ => true) ⟨0, true, false, true⟩,
+       .unary (fun _ => false) ⟨7, true, true, true⟩] ∧
     Spec.AllKnownIfHeaderless ⟨[.unary 2 true, .stream false false 1 .raises []]⟩
-      [.stream (fun n => n == 0) ⟨1, true, true⟩ false [.tick, .cancel], .unary (fun _ => true) ⟨0, true, false⟩,
-       .unary (fun _ => false) ⟨7, true, true⟩] := by
+      [.stream (fun n => n == 0) ⟨1, true, true, true⟩ false [.tick, .cancel], .unary (fun _ => true) ⟨0, true, false, true⟩,
+       .unary (fun _ => false) ⟨7, true, true, true⟩] := by
   constructor <;> intro c hc <;> simp at hc <;> rcases hc with rfl | rfl | rfl <;>
     simp [Spec.Agree, Spec.KnownIfHeaderless]
 
